@@ -576,6 +576,13 @@ def call_ext(ev, dotted, args, kwargs, node):
         return _IDENTITY_DECORATOR
     if dotted in ("dataclasses.dataclass", "dataclasses.field"):
         return _IDENTITY_DECORATOR
+    if dotted == "dataclasses.replace":
+        from .evalr import Obj
+        src = args[0]
+        if isinstance(src, Obj):
+            o = Obj(src.cls, dict(src.attrs))
+            o.attrs.update(kwargs)
+            return o
     if dotted == "warnings.warn":
         ev.event("warn", node=node)
         return Const(None)
